@@ -182,3 +182,28 @@ func init() {
 		}
 	}
 }
+
+func init() {
+	debugCmds["fieldstores"] = func(args []string) {
+		p, _ := loadProg("/repo", "")
+		m := map[string]map[string]bool{}
+		for _, fn := range pkgFunctions(p, interpPkg) {
+			for _, b := range fn.Blocks {
+				for _, ins := range b.Instrs {
+					if st, ok := ins.(*ssa.Store); ok {
+						if fa, ok := st.Addr.(*ssa.FieldAddr); ok && namedOf(fa.X.Type()) == args[0] {
+							f := fieldName(fa.X.Type(), fa.Field)
+							if m[f] == nil {
+								m[f] = map[string]bool{}
+							}
+							m[f][fn.Name()] = true
+						}
+					}
+				}
+			}
+		}
+		for f, fs := range m {
+			fmt.Println(f, keysSorted(fs))
+		}
+	}
+}
